@@ -13,6 +13,9 @@ for n in sorted(os.listdir(os.path.join(V, "seeded"))):
     d = os.path.join(V, "seeded", n)
     meta = json.load(open(os.path.join(d, "meta.json")))
     prop = meta["property"]
+    if meta.get("void"):
+        print(f"{n:8s} {prop} skipped: {meta['void'][:120]}", flush=True)
+        continue
     tmp = tempfile.mkdtemp(prefix="seeded-", dir="/dev/shm")
     try:
         env = dict(os.environ, VERIF_EVIDENCE_DIR=tmp, VERIF_REPLAY_DIR=tmp)
